@@ -5,7 +5,11 @@
 //	L <β> <lo> <hi> | v,v,v,...              VerifLimit(β,n) for n = lo..hi (the float depth limit)
 //
 // Elements are pairs k_p (key, payload) compared by key only, so WHICH of two equivalent
-// elements a tree stores is observable.  cmp: n natural order on k, r reversed, m<j> k modulo j.
+// elements a tree stores is observable.  cmp = <order><style>: order n natural on k, r reversed,
+// m<j> k modulo j; style (how the SIGN is delivered - the package documents <0 / =0 / >0 only):
+// none -1/0/1, d the difference, t three times the difference, v the difference times a factor
+// 1..5 that depends on the payloads (so two calls on equivalent keys return different numbers),
+// x the sign times 2^40, k -1/0/1 delivered through stree.KV.Compare.
 //
 // ops, ';'-separated, trees are numbered in order of creation (New and Clone):
 //
@@ -21,6 +25,7 @@
 //
 // out:
 //
+//	N with β outside 0..1000: panic:beta iff the panic value is exactly the documented "β out of range"
 //	mutations      <res>@<sum>+<sum>+...   res 1/0 (Add/Replace/Remove), u (New/Clone/Clear);
 //	               N additionally lists what the tree holds: u:<e,e,..>@...; one <sum> per live tree
 //	sum            len,IsEmpty,Min,Max,t.max,nodes,inorderhash,shapehash
@@ -30,7 +35,9 @@
 package main
 
 import (
+	gocmp "cmp"
 	"fmt"
+	"math"
 	"sort"
 	"strconv"
 	"strings"
@@ -84,29 +91,81 @@ func showEs(es []E) string {
 	return b.String()
 }
 
+// parseCmp splits a comparator name into order ('n', 'r', 'm' with modulus j) and style (0 = none).
+func parseCmp(s string) (order byte, j int, style byte, ok bool) {
+	if s == "" {
+		return
+	}
+	order = s[0]
+	rest := s[1:]
+	switch order {
+	case 'n', 'r':
+	case 'm':
+		i := 0
+		for i < len(rest) && rest[i] >= '0' && rest[i] <= '9' {
+			i++
+		}
+		var err error
+		j, err = strconv.Atoi(rest[:i])
+		if err != nil || j <= 0 {
+			return
+		}
+		rest = rest[i:]
+	default:
+		return
+	}
+	switch rest {
+	case "":
+	case "d", "t", "v", "x", "k":
+		style = rest[0]
+	default:
+		return
+	}
+	return order, j, style, true
+}
+
+func abs(a int) int {
+	if a < 0 {
+		return -a
+	}
+	return a
+}
+
 func cmpFor(s string) func(a, b E) int {
-	nat := func(a, b int) int {
-		if a < b {
+	order, j, style, ok := parseCmp(s)
+	if !ok {
+		return nil
+	}
+	// the position of an element in the order, as an integer
+	pos := func(e E) int { return e.K }
+	switch order {
+	case 'r':
+		pos = func(e E) int { return -e.K }
+	case 'm':
+		pos = func(e E) int { return ((e.K % j) + j) % j }
+	}
+	sign := func(d int) int {
+		if d < 0 {
 			return -1
-		} else if a > b {
+		} else if d > 0 {
 			return 1
 		}
 		return 0
 	}
-	switch {
-	case s == "n":
-		return func(a, b E) int { return nat(a.K, b.K) }
-	case s == "r":
-		return func(a, b E) int { return nat(b.K, a.K) }
-	case strings.HasPrefix(s, "m"):
-		j, err := strconv.Atoi(s[1:])
-		if err != nil || j <= 0 {
-			return nil
-		}
-		md := func(a int) int { return ((a % j) + j) % j }
-		return func(a, b E) int { return nat(md(a.K), md(b.K)) }
+	switch style {
+	case 'd':
+		return func(a, b E) int { return pos(a) - pos(b) }
+	case 't':
+		return func(a, b E) int { return 3 * (pos(a) - pos(b)) }
+	case 'v':
+		return func(a, b E) int { return (pos(a) - pos(b)) * (1 + (abs(a.P)+abs(b.P))%5) }
+	case 'x':
+		return func(a, b E) int { return sign(pos(a)-pos(b)) << 40 }
+	case 'k':
+		kv := stree.KV[int, E]{}.Compare(gocmp.Compare[int])
+		return func(a, b E) int { return kv(stree.KV[int, E]{Key: pos(a), Value: a}, stree.KV[int, E]{Key: pos(b), Value: b}) }
 	}
-	return nil
+	return func(a, b E) int { return sign(pos(a) - pos(b)) }
 }
 
 // ---- hashes (the driver computes the same ones on the model)
@@ -227,6 +286,7 @@ func execHistory(cmpName, opsStr string) string {
 	var outs []string
 	var trees []*stree.Tree[E]
 	bad := false
+	stopped := false // New panicked with exactly the documented value: the history ends there
 	get := func(s string) *stree.Tree[E] {
 		i, err := strconv.Atoi(s)
 		if err != nil || i < 0 || i >= len(trees) {
@@ -251,7 +311,12 @@ func execHistory(cmpName, opsStr string) string {
 					return
 				}
 				arg := append([]E(nil), keys...)
-				t := stree.New(β, cmp, arg...)
+				t, documented := newTree(β, cmp, arg)
+				if documented {
+					outs = append(outs, "panic:beta")
+					stopped = true
+					return
+				}
 				for i := range arg { // poison the argument slice
 					arg[i] = E{-7, -7}
 				}
@@ -321,10 +386,25 @@ func execHistory(cmpName, opsStr string) string {
 	if bad {
 		return "BAD"
 	}
-	if res != "" {
+	if res != "" && !stopped {
 		outs = append(outs, res)
 	}
 	return strings.Join(outs, ";")
+}
+
+// newTree calls stree.New; documented reports that it panicked with exactly the value the
+// package documents for a balance factor outside 0..1000.  Any other panic is passed on.
+func newTree(β int, cmp func(a, b E) int, keys []E) (t *stree.Tree[E], documented bool) {
+	defer func() {
+		if r := recover(); r != nil {
+			if s, ok := r.(string); ok && s == "β out of range" {
+				documented = true
+				return
+			}
+			panic(r)
+		}
+	}()
+	return stree.New(β, cmp, keys...), false
 }
 
 func exec(in string) string {
@@ -380,15 +460,38 @@ type hist struct {
 	nextP int
 	tags  map[string]bool
 	dump  bool // follow every mutation with full I and S dumps and probes
+	pairs [][2]int         // (original, clone)
+	hit   map[[2]int][2]bool // which side of a pair was really changed after the Clone
+}
+
+// touch records that tree t was really changed (contents or stored representative).
+func (h *hist) touch(t int) {
+	for _, p := range h.pairs {
+		v := h.hit[p]
+		if p[0] == t {
+			v[0] = true
+		}
+		if p[1] == t {
+			v[1] = true
+		}
+		h.hit[p] = v
+		switch {
+		case v[0] && v[1]:
+			h.tags["clone-both-sides-changed"] = true
+		case v[0]:
+			h.tags["clone-original-changed"] = true
+		case v[1]:
+			h.tags["clone-copy-changed"] = true
+		}
+	}
 }
 
 func newHist(g *tr.G, cmp string, dump bool) *hist {
-	return &hist{g: g, cmp: cmp, nextP: 1, tags: map[string]bool{}, dump: dump}
+	return &hist{g: g, cmp: cmp, nextP: 1, tags: map[string]bool{}, dump: dump, hit: map[[2]int][2]bool{}}
 }
 
 func (h *hist) canon(k int) int {
-	if strings.HasPrefix(h.cmp, "m") {
-		j, _ := strconv.Atoi(h.cmp[1:])
+	if order, j, _, _ := parseCmp(h.cmp); order == 'm' {
 		return ((k % j) + j) % j
 	}
 	return k
@@ -447,12 +550,15 @@ func (h *hist) Clone(t int) int {
 	}
 	h.sets = append(h.sets, set)
 	h.tags["clone"] = true
+	h.pairs = append(h.pairs, [2]int{t, len(h.sets) - 1})
 	return len(h.sets) - 1
 }
 
 func (h *hist) Add(t, k int) {
 	if h.sets[t][h.canon(k)] {
 		h.tags["add-existing"] = true
+	} else {
+		h.touch(t)
 	}
 	h.ops = append(h.ops, fmt.Sprintf("a:%d:%s", t, h.el(k)))
 	h.sets[t][h.canon(k)] = true
@@ -463,6 +569,7 @@ func (h *hist) Replace(t, k int) {
 	if h.sets[t][h.canon(k)] {
 		h.tags["replace-existing"] = true
 	}
+	h.touch(t)
 	h.ops = append(h.ops, fmt.Sprintf("r:%d:%s", t, h.el(k)))
 	h.sets[t][h.canon(k)] = true
 	h.after(t, k)
@@ -471,6 +578,7 @@ func (h *hist) Replace(t, k int) {
 func (h *hist) Remove(t, k int) {
 	if h.sets[t][h.canon(k)] {
 		h.tags["remove-present"] = true
+		h.touch(t)
 		if len(h.sets[t]) == 1 {
 			h.tags["drained-to-empty"] = true
 		}
@@ -484,6 +592,9 @@ func (h *hist) Remove(t, k int) {
 
 func (h *hist) Clear(t int) {
 	h.ops = append(h.ops, fmt.Sprintf("x:%d", t))
+	if len(h.sets[t]) > 0 {
+		h.touch(t)
+	}
 	h.sets[t] = map[int]bool{}
 	h.tags["clear"] = true
 	h.after(t, 0)
@@ -518,7 +629,80 @@ func (h *hist) emit(tags ...string) string {
 	if strings.Contains(out, "panic:") {
 		h.g.W.Count("impl-panic", 1)
 	}
+	if _, _, style, _ := parseCmp(h.cmp); style != 0 {
+		h.g.W.Count("cmp-style-"+string(style), 1)
+	}
+	for tag, n := range rebuilds(h.ops, strings.Split(out, ";")) {
+		h.g.W.Count(tag, n)
+	}
 	return out
+}
+
+// rebuilds reads, from the implementation's own outputs, how often a history went through the
+// rebuild paths: a successful Remove after which t.max dropped is a delete-side rebuild; a
+// successful Add/Replace (in a history with shape dumps) whose new shape is not the old shape
+// with one nil replaced by the new leaf is a scapegoat rebuild.
+func rebuilds(ops, outs []string) map[string]int {
+	res := map[string]int{}
+	var maxes []int              // t.max per tree after the previous mutation
+	shapes := map[string]string{} // last dumped shape per tree
+	pending := ""                 // "t e old-shape" of an insertion waiting for the next dump of t
+	var pendT, pendE, pendOld string
+	for i, op := range ops {
+		if i >= len(outs) {
+			break
+		}
+		f := strings.Split(op, ":")
+		o := outs[i]
+		at := strings.IndexByte(o, '@')
+		switch {
+		case f[0] == "S" && len(f) == 2:
+			if pending != "" && pendT == f[1] {
+				if strings.Replace(o, "(."+pendE+".)", ".", 1) != pendOld {
+					res["goat-rebuild"]++
+				} else {
+					res["plain-leaf-insert"]++
+				}
+				pending = ""
+			}
+			shapes[f[1]] = o
+		case at >= 0:
+			var now []int
+			sizes := []int{}
+			for _, sum := range strings.Split(o[at+1:], "+") {
+				p := strings.Split(sum, ",")
+				if len(p) != 8 {
+					return res
+				}
+				m, _ := strconv.Atoi(p[4])
+				n, _ := strconv.Atoi(p[0])
+				now = append(now, m)
+				sizes = append(sizes, n)
+			}
+			if len(f) == 3 {
+				t, err := strconv.Atoi(f[1])
+				if err == nil && t < len(maxes) && t < len(now) && o[:at] == "1" {
+					switch f[0] {
+					case "d":
+						if now[t] < maxes[t] {
+							res["delete-rebuild"]++
+							if sizes[t] == 0 {
+								res["delete-rebuild-to-empty"]++
+							} else if sizes[t] == 1 {
+								res["delete-rebuild-to-one"]++
+							}
+						}
+					case "a", "r":
+						if old, ok := shapes[f[1]]; ok {
+							pending, pendT, pendE, pendOld = "y", f[1], f[2], old
+						}
+					}
+				}
+			}
+			maxes = now
+		}
+	}
+	return res
 }
 
 var betas = []int{0, 1, 250, 500, 999, 1000}
@@ -530,14 +714,25 @@ func pickBeta(r *tr.Rand) int {
 	return tr.Pick(r, betas)
 }
 
+var styles = []string{"d", "t", "v", "x", "k"}
+
+// pickStyle: half of the histories run under a comparator that delivers the sign some other way
+// than -1/0/1.
+func pickStyle(r *tr.Rand) string {
+	if r.Chance(1, 2) {
+		return ""
+	}
+	return tr.Pick(r, styles)
+}
+
 func pickCmp(r *tr.Rand) string {
 	switch r.Intn(8) {
 	case 0:
-		return "r"
+		return "r" + pickStyle(r)
 	case 1:
-		return "m" + strconv.Itoa(r.Range(3, 11))
+		return "m" + strconv.Itoa(r.Range(3, 11)) + pickStyle(r)
 	}
-	return "n"
+	return "n" + pickStyle(r)
 }
 
 // order patterns over 1..n
@@ -662,7 +857,7 @@ func genSmall(g *tr.G) {
 // genPattern inserts a pattern, optionally drains, with summaries after every op and dumps now and then.
 func genPattern(g *tr.G, pat string, n int, β int, drain string) {
 	r := g.R
-	h := newHist(g, "n", n <= 16)
+	h := newHist(g, "n"+pickStyle(r), n <= 16)
 	t := h.New(β, nil)
 	ks := pattern(r, pat, n)
 	every := max(1, n/6)
@@ -756,16 +951,17 @@ func genBulk(g *tr.G, n int) {
 func genTwoChild(g *tr.G, n int) {
 	r := g.R
 	β := pickBeta(r)
-	h := newHist(g, "n", n <= 14)
+	h := newHist(g, "n"+pickStyle(r), n <= 14)
 	t := h.New(β, nil)
 	cmp := cmpFor("n")
-	real := stree.New(β, cmp)
+	var real *stree.Tree[E]
 	broken := false // the steering copy failed: stop steering, emit what there is
 	guard := func(f func()) {
 		if !broken && tr.Guard(20*time.Second, f) != "" {
 			broken = true
 		}
 	}
+	guard(func() { real = stree.New(β, cmp) })
 	for _, k := range pattern(r, tr.Pick(r, []string{"random", "inside-out", "random"}), n) {
 		e := E{2 * k, 0}
 		h.Add(t, e.K)
@@ -834,6 +1030,110 @@ func genClone(g *tr.G, n int) {
 	h.emit("clone-then-mutate-both")
 }
 
+// genSign: the package documents only the SIGN of the comparison result.  Keys are spaced so that
+// no two distinct ones differ by exactly 1 in the order, and the comparator delivers differences
+// (or multiples, or payload-dependent multiples): a result of exactly -1 or 1 then never occurs.
+// Every operation that compares (Get, Add, Replace, Remove, InorderAfter, bulk New) is probed on
+// present keys, absent keys between two present ones, and keys beyond both ends.
+func genSign(g *tr.G, n int) {
+	r := g.R
+	order := tr.Pick(r, []string{"n", "n", "r", "m" + strconv.Itoa(tr.Pick(r, []int{64, 101, 1000}))})
+	h := newHist(g, order+tr.Pick(r, []string{"d", "t", "v", "x"}), n <= 14)
+	β := pickBeta(r)
+	space := tr.Pick(r, []int{2, 3, 7, 10})
+	off := r.Range(-n*space/2, 3)
+	if order[0] == 'm' {
+		off = r.Range(0, 3) // positions are taken modulo j: keep them inside 0..j-1 and apart
+		if n*space+off >= 60 {
+			n = (60 - off) / space
+		}
+	}
+	key := func(i int) int { return off + space*i } // i = 0..n-1 present candidates
+	perm := pattern(r, tr.Pick(r, []string{"random", "sorted", "reverse", "zigzag"}), n)
+	var t int
+	split := r.Intn(n + 1)
+	if split > 0 {
+		keys := make([]E, 0, split+2)
+		for _, i := range perm[:split] {
+			keys = append(keys, h.el(key(i-1)))
+		}
+		if r.Chance(1, 2) { // an equivalent duplicate with another payload
+			keys = append(keys, h.el(keys[r.Intn(len(keys))].K))
+		}
+		t = h.New(β, keys)
+	} else {
+		t = h.New(β, nil)
+	}
+	for _, i := range perm[split:] {
+		h.Add(t, key(i-1))
+	}
+	h.Dump(t)
+	probe := func(k int) {
+		switch r.Intn(7) {
+		case 0, 1:
+			h.Probe(t, k)
+		case 2:
+			h.ops = append(h.ops, fmt.Sprintf("A:%d:%s:%d", t, h.el(k), r.Range(0, 3)))
+		case 3:
+			h.Add(t, k)
+		case 4:
+			h.Replace(t, k)
+		default:
+			h.Remove(t, k)
+		}
+		h.tags["sign-probe"] = true
+	}
+	for i := 0; i < r.Range(4, 16); i++ {
+		j := r.Intn(n)
+		switch r.Intn(4) {
+		case 0, 1:
+			probe(key(j)) // present (unless removed meanwhile)
+		case 2:
+			probe(key(j) + 1 + r.Intn(space-1)) // strictly between two candidates
+		default:
+			probe(tr.Pick(r, []int{key(0) - 1 - r.Intn(5), key(n-1) + 1 + r.Intn(5)}))
+		}
+	}
+	h.Dump(t)
+	h.emit("cmp-magnitude")
+}
+
+// genExhaustive: every insertion order of 1..n into an empty tree, full dumps after every step;
+// then, on a fresh clone each time, every single removal followed by lookups of all keys.
+func genExhaustive(g *tr.G, n int, β int, cmp string) {
+	perm := make([]int, n)
+	for i := range perm {
+		perm[i] = i + 1
+	}
+	var rec func(k int)
+	rec = func(k int) {
+		if k == n {
+			h := newHist(g, cmp, true)
+			t := h.New(β, nil)
+			for _, x := range perm {
+				h.Add(t, 2*x)
+			}
+			for x := 1; x <= n; x++ {
+				c := h.Clone(t)
+				h.Remove(c, 2*x)
+				for y := 1; y <= 2*n+1; y++ {
+					h.ops = append(h.ops, fmt.Sprintf("g:%d:%s", c, h.el(y)))
+				}
+				h.ops = append(h.ops, fmt.Sprintf("A:%d:%s:-1", c, h.el(2*x-1)))
+			}
+			h.Dump(t)
+			h.emit(fmt.Sprintf("exhaustive-orders-%d", n))
+			return
+		}
+		for i := k; i < n; i++ {
+			perm[k], perm[i] = perm[i], perm[k]
+			rec(k + 1)
+			perm[k], perm[i] = perm[i], perm[k]
+		}
+	}
+	rec(0)
+}
+
 func genLimits(g *tr.G) {
 	hi := g.Scale(1024, 4096)
 	for _, β := range []int{0, 1, 2, 100, 250, 333, 500, 667, 750, 900} {
@@ -850,14 +1150,35 @@ func genLimits(g *tr.G) {
 }
 
 func main() {
-	tr.Main("C01/C02: whole histories of stree.Tree over (key,payload) elements compared by key (natural, reversed and modulo comparators): small random histories over 3..12 keys with New/Add/Replace/Remove/Clear/Clone and full Inorder+shape dumps and Get/InorderAfter/stopped-Inorder probes after every mutation; sorted, reverse, zig-zag, inside-out, random and duplicate-heavy insertion patterns up to 160 (quick) / 1500 (thorough) keys at beta in {0,1,250,500,999,1000} plus random beta, each optionally drained ascending/descending/randomly/three-quarters and refilled; bulk New with unsorted duplicated keys (the kept representatives are recorded as oracle input); two-child removals found on the real tree followed by lookups of the promoted successor; Clone then mutate both copies. After every mutation: result, Len, IsEmpty, Min, Max, t.max, node count and hashes of the full Inorder output and of the whole shape read through Root/Left/Right/Key, for every live tree. Plus sweeps of the float depth limit VerifLimit(beta,n). A case is non-trivial when it removed a present key, replaced an existing one, bulk-loaded duplicates, cloned, or has more than 20 ops.",
+	tr.Main("C01: whole histories of stree.Tree over (key,payload) elements compared by key. Comparators: natural, reversed and modulo-j orders, each delivering the sign as -1/0/1, as the difference, three times the difference, a payload-dependent multiple of the difference, sign times 2^40, or through stree.KV.Compare (half of all histories use a non-unit style). Generators: small random histories over 3..12 keys with New/Add/Replace/Remove/Clear/Clone and full Inorder+shape dumps and Get/InorderAfter/stopped-Inorder probes after every mutation; every insertion order of 4..5 (thorough 6..7) keys followed by every single removal on a fresh clone and lookups of all keys; sign-only probes (keys spaced so that no comparison returns -1 or 1: Get/Add/Replace/Remove/InorderAfter on present keys, keys between two present ones and keys beyond both ends); sorted, reverse, zig-zag, inside-out, random and duplicate-heavy insertion patterns up to 160 (quick) / 1500 (thorough) keys at beta in {0,1,250,500,999,1000} plus random beta, each optionally drained ascending/descending/randomly/three-quarters and refilled; bulk New with unsorted duplicated keys (the kept representatives are recorded as oracle input); two-child removals found on the real tree followed by lookups of the promoted successor; Clone then mutate both copies; New with beta outside 0..1000 (down to MinInt64 and up to MaxInt64, with and without keys) must panic with exactly the documented value. After every mutation: result, Len, IsEmpty, Min, Max, t.max, node count and hashes of the full Inorder output and of the whole shape read through Root/Left/Right/Key, for every live tree. Plus sweeps of the float depth limit VerifLimit(beta,n). Counters delete-rebuild*/goat-rebuild are read from the implementation's own outputs. A case is non-trivial when it removed a present key, replaced an existing one, bulk-loaded duplicates, cloned, or has more than 20 ops.",
 		exec, func(g *tr.G) {
 			r := g.R
-			// invalid β
-			for _, β := range []int{-1, 1001} {
-				h := newHist(g, "n", true)
-				h.New(β, []E{h.el(1), h.el(2)})
-				h.emit("bad-beta")
+			// invalid β, with and without keys: the documented panic and nothing else
+			for _, β := range []int{-1, 1001, -1000, 2000, math.MinInt64, math.MinInt64 + 1, math.MaxInt64, 1 << 32, -(1 << 31), 1<<63 - 1000} {
+				for _, withKeys := range []bool{true, false} {
+					h := newHist(g, "n", true)
+					if withKeys {
+						h.New(β, []E{h.el(1), h.el(2)})
+					} else {
+						h.New(β, nil)
+					}
+					h.emit("bad-beta")
+				}
+			}
+			// the two ends of the documented range are accepted
+			for _, β := range []int{0, 1000} {
+				h := newHist(g, "nd", true)
+				t := h.New(β, []E{h.el(3), h.el(1), h.el(3)})
+				h.Add(t, 2)
+				h.Probe(t, 3)
+				h.emit("edge-beta")
+			}
+			for _, β := range []int{0, 500, 1000} {
+				genExhaustive(g, g.Scale(4, 6), β, tr.Pick(r, []string{"n", "nd", "rt", "nv"}))
+			}
+			genExhaustive(g, g.Scale(5, 7), 250, "nd")
+			for i := 0; i < g.Scale(700, 14000); i++ {
+				genSign(g, r.Range(2, g.Scale(24, 50)))
 			}
 			for i := 0; i < g.Scale(2500, 60000); i++ {
 				genSmall(g)
